@@ -705,7 +705,11 @@ func genCmd(r *gen.Rand, d *meta2.Data) Cmd {
 	case k < 192:
 		return Cmd{K: "ccq", DB: anyDB(), S1: gen.Pick(r, cqs), S2: "CREATE CONTINUOUS QUERY q" + strconv.Itoa(r.Intn(2))}
 	case k < 193:
-		return Cmd{K: "cqreport", S1: gen.Pick(r, cqs), TS: Base + int64(r.Intn(100))*Hour}
+		ts := Base + int64(r.Intn(100))*Hour
+		if r.Chance(1, 3) {
+			ts = []int64{0, 1, -1, 1<<63 - 1, -1 << 63}[r.Intn(5)] // 0: the instant the snapshot encoding may confuse with "never ran"
+		}
+		return Cmd{K: "cqreport", S1: gen.Pick(r, cqs), TS: ts}
 	case k < 194:
 		return Cmd{K: "dcq", S1: gen.Pick(r, cqs), DB: anyDB()}
 	case k < 195:
@@ -991,6 +995,12 @@ func corpus() []*Case {
 			{K: "cuser", S1: "u1", S2: "h"},
 			{K: "uptinfo", DB: 1, Pt: 0, COwner: 1, CStat: 3, Owner: 1, Status: 1}, {K: "ptver", DB: 1, Pt: 1},
 			{K: "cuser", S1: "u2", S2: "h"},
+		}),
+		// a last run reported at instant 0 and a never-run query, through a snapshot: both must come back as they were
+		scripted("cq-reported-at-epoch", 1, 5, 0, []Cmd{
+			{K: "cnode", H: 1, T: 1}, {K: "cdb", DB: 1, HasRP: true, RP: 1, D: i64(0), SGD: i64(Hour)},
+			{K: "ccq", DB: 1, S1: "cq1", S2: "CREATE CONTINUOUS QUERY q0"}, {K: "ccq", DB: 1, S1: "cq2", S2: "CREATE CONTINUOUS QUERY q1"},
+			{K: "cqreport", S1: "cq2", TS: 0}, {K: "cuser", S1: "u1", S2: "h"}, {K: "cqreport", S1: "cq1", TS: Base},
 		}),
 		// a database-level sharding type without shard keys must survive the snapshot
 		scripted("database-sharding-type-without-keys", 1, 2, 0, []Cmd{
